@@ -81,6 +81,7 @@ def value_words(S):
     from checks import C15
     C15.rule_imm(S)
     C15.rule_one(S)
+    C15.rule_copy(S)
 
 
 def reclamation(S):
